@@ -13,7 +13,7 @@ use crate::with_d;
 use serde::{Deserialize, Serialize};
 use std::time::Instant;
 
-pub const RULE: &str = "cases (matrix) = symmetric matrices of dimension 1..8: SPD (all C15 classes), indefinite (SPD minus a multiple of the identity, or with a negated row/column), exactly singular positive semi-definite small-integer Q Q^T with a zero LAST pivot scaled by a power of two (all Cholesky arithmetic exact => ZeroDet is required), semi-definite with an interior zero pivot, the 2x2 [[1,2],[2,1]] family, ill-conditioned Hilbert-like; stability tolerance None, 10^(-12..2), or an extreme of the type (+inf, f64::MAX, 5e-324, 0, -0, negative, NaN); power-of-four diagonal matrices whose residual is exactly 0; direct sums of small exact SPD blocks each at its own power-of-two scale down to subnormal (parts of the inverse overflow); exact-ring scalar route: positive-definite dyadic matrices of dimension 1..8 decomposed with a user scalar whose + - * are exact and whose sqrt and / are rounded to 16 bits, so that the routine's own evaluation of the distance is accurate to 1.6e-5 in any summation order: the residual d of the untested result is computed exactly and the call is repeated with tolerances d*r, r in {0.5, 0.9, 0.999, 1.001, random}: every r <= 1-3e-4 must be refused. oracle: Ok => determinant != 0; required-ZeroDet class must give ZeroDet; with Some(tol): Ok => no NaN anywhere in the decomposition and the L_{2,1} distance between inverse*matrix and the identity, recomputed in exact rational arithmetic from the returned inverse, <= tol(1+1e-9) + rounding slack of the residual evaluation. cases (sample) = accepted graphs sampled with the stability test enabled at points containing 0, subnormal and 1-2^-53 coordinates: an Ok sample has a NaN-free decomposition meeting the same bound. non-trivial = the matrix is not (SPD with cond<=1e6), or the sample point has an exact-zero / extreme coordinate; distinct = distinct case encodings";
+pub const RULE: &str = "cases (matrix) = symmetric matrices of dimension 1..8: SPD (all C15 classes), indefinite (SPD minus a multiple of the identity, or with a negated row/column), exactly singular positive semi-definite small-integer Q Q^T with a zero LAST pivot scaled by a power of two (all Cholesky arithmetic exact => ZeroDet is required), semi-definite with an interior zero pivot, the 2x2 [[1,2],[2,1]] family, ill-conditioned Hilbert-like; stability tolerance None, 10^(-12..2), or an extreme of the type (+inf, f64::MAX, 5e-324, 0, -0, negative, NaN); power-of-four diagonal matrices whose residual is exactly 0; direct sums of small exact SPD blocks each at its own power-of-two scale down to subnormal (parts of the inverse overflow); exact-ring scalar route: positive-definite dyadic matrices of dimension 1..8 decomposed with a user scalar whose + - * are exact and whose sqrt and / are rounded to 16 bits, so that the routine's own evaluation of the distance is accurate to 1.6e-5 in any summation order: the residual d of the untested result is computed exactly and the call is repeated with tolerances d*r, r in {0.5, 0.9, 0.999, 1.001, random}: every r <= 1-3e-4 must be refused. every matrix and every sample is decomposed with print_debug_info off and on. oracle: Ok => determinant != 0; required-ZeroDet class must give ZeroDet; with Some(tol): Ok => no NaN anywhere in the decomposition and the L_{2,1} distance between inverse*matrix and the identity, recomputed in exact rational arithmetic from the returned inverse, <= tol(1+1e-9) + rounding slack of the residual evaluation. cases (sample) = accepted graphs sampled with the stability test enabled at points containing 0, subnormal and 1-2^-53 coordinates: an Ok sample has a NaN-free decomposition meeting the same bound. non-trivial = the matrix is not (SPD with cond<=1e6), or the sample point has an exact-zero / extreme coordinate; distinct = distinct case encodings";
 
 #[derive(Clone, Debug, Serialize, Deserialize)]
 pub struct Case {
@@ -259,6 +259,18 @@ pub fn check(c: &Case, ctx: &mut Ctx) -> Result<(), Failure> {
             check_decomp_ok(a, d, c.tol, "decompose_for_tropical")?;
         }
     }
+    // the same contract with print_debug_info on (the property does not depend on the debug flag)
+    match sut::decompose_dbg(a, c.tol, true) {
+        Err(SutErr::Panic(m)) => fail!("decompose-panic", "decompose_for_tropical panicked with print_debug_info=true: {m} on {a:?}"),
+        Ok(d) => {
+            if c.require_zero_det {
+                fail!("zero-pivot-not-reported", "print_debug_info=true: exactly singular matrix gave Ok with determinant {} instead of ZeroDet: {a:?}", d.det);
+            }
+            check_decomp_ok(a, &d, c.tol, "decompose_for_tropical(print_debug_info=true)")?;
+            ctx.label("debug-on:Ok");
+        }
+        Err(_) => ctx.label("debug-on:Err"),
+    }
     // adaptive: take the decomposition obtained without the test, compute its exact residual r, and ask again with
     // tolerances below r: the stability test must then refuse (decided only where r clearly exceeds the rounding slack)
     if c.tol.is_none() {
@@ -330,8 +342,9 @@ fn sample_d<const D: usize>(c: &SCase, ctx: &mut Ctx) -> Result<(), Failure> {
         }
     };
     let ed = sut::edge_data::<D>(&g.massive, &p.kin.masses, &p.kin.shifts);
-    match sut::sample_f64(&s, &p.x, ed, Some(c.tol), false, true) {
-        Err(SutErr::Panic(m)) => fail!("sample-panic", "sampling panicked: {m}; case {c:?}"),
+    for dbg in [false, true] {
+    match sut::sample_f64(&s, &p.x, ed.clone(), Some(c.tol), dbg, true) {
+        Err(SutErr::Panic(m)) => fail!("sample-panic", "sampling panicked (print_debug_info={dbg}): {m}; case {c:?}"),
         Err(e) => {
             ctx.label(format!("sample:{e:?}"));
         }
@@ -350,6 +363,7 @@ fn sample_d<const D: usize>(c: &SCase, ctx: &mut Ctx) -> Result<(), Failure> {
                 ctx.label("sample:Ok(determinant overflowed to inf)");
             }
         }
+    }
     }
     if p.classes.iter().any(|s| s == "sprinkled-extreme" || s == "u:extreme" || s == "xi:tiny") {
         ctx.nontrivial();
